@@ -83,16 +83,22 @@ func (c *runCtx) logf(format string, a ...any) {
 // exec runs one call and returns the hash of its canonical result. A library
 // panic is a (deterministic) result; an Abort is re-raised.
 func exec(cl *call) (h uint64, aborted *simhook.Abort) {
+	h, _, aborted = exec2(cl)
+	return
+}
+
+// exec2 also returns the message of an in-call oracle failure ("" if none).
+func exec2(cl *call) (h uint64, fail string, aborted *simhook.Abort) {
 	r := &R{}
 	simhook.BeginOp()
 	pv, _ := simkit.Try(func() { cl.run(r) })
 	if pv != nil {
 		if a, ok := simkit.IsAbort(pv); ok {
-			return 0, a
+			return 0, "", a
 		}
 		r = (&R{}).S("panic: " + simkit.PanicString(pv))
 	}
-	return r.hash(), nil
+	return r.hash(), r.viol, nil
 }
 
 // invariant is O1: every shared input is bit-identical to its snapshot.
@@ -347,9 +353,14 @@ func (c *runCtx) reference(t *simhook.Tape) *simhook.Abort {
 			for i := range c.pln.calls {
 				before := simhook.Seq()
 				c.sh.enter(0, c.pln.calls[i].name, 1)
-				h, a := exec(&c.pln.calls[i])
+				h, fail, a := exec2(&c.pln.calls[i])
 				if a != nil {
 					ab = a
+					return
+				}
+				if fail != "" {
+					c.sh.setViol(&simkit.Violation{Property: "C20", Oracle: "C20/O2-equal-state-differs", Op: c.pln.calls[i].name, Seq: simhook.Seq(),
+						Message: fmt.Sprintf("call %d (%s: %s): %s", i, c.pln.calls[i].name, c.pln.calls[i].desc, fail)})
 					return
 				}
 				c.ref[i] = h
